@@ -72,3 +72,29 @@ Proof.
   - exists d. split; [now apply unit_roundtrip_lemma | apply dec_num_eqb_refl].
   - exists (dec_flat d). now apply unit_roundtrip_posexp_lemma.
 Qed.
+Lemma dec_flat_signed_coef d : (0 < dexp d)%Z -> dec_signed_coef (dec_flat d) = (dec_signed_coef d * 10 ^ dexp d)%Z.
+Proof.
+  intros He. destruct d as [neg coef e]. unfold dec_signed_coef, dec_flat. cbn [dneg dcoef dexp] in *.
+  destruct (N.eqb_spec coef 0) as [E|E]; [subst coef; cbn; lia|].
+  rewrite N2Z.inj_mul, N2Z.inj_pow, Z2N.id by lia. change (Z.of_N 10) with 10%Z. ring.
+Qed.
+
+(* Unit.convert("px") of the length read back from the text is the conversion of the original length *)
+Theorem unit_convert_flat_lemma d u dpi : (0 < dexp d)%Z -> unit_convert_px (dec_flat d) u dpi = unit_convert_px d u dpi.
+Proof.
+  intros He. unfold unit_convert_px. rewrite dec_flat_signed_coef by exact He.
+  replace (dexp (dec_flat d)) with 0%Z by reflexivity.
+  change (0 <=? 0)%Z with true. cbn iota.
+  destruct (Z.leb_spec 0 (dexp d)) as [_|H]; [|lia].
+  change (10 ^ 0)%Z with 1%Z. rewrite !Z.mul_1_r.
+  destruct (str_eqb u s_in); [f_equal; ring|].
+  destruct (str_eqb u s_cm); [|reflexivity]. f_equal. f_equal. ring.
+Qed.
+
+Theorem unit_convert_after_roundtrip_lemma d u dpi : u <> [] -> forallb is_letter u = true ->
+  exists d', unit_parse (unit_str d u) = Some (d', u) /\ unit_convert_px d' u dpi = unit_convert_px d u dpi.
+Proof.
+  intros Hne Hu. destruct (Z.le_gt_cases (dexp d) 0) as [H|H].
+  - exists d. split; [now apply unit_roundtrip_lemma | reflexivity].
+  - exists (dec_flat d). split; [now apply unit_roundtrip_posexp_lemma | now apply unit_convert_flat_lemma].
+Qed.
